@@ -129,7 +129,66 @@ def translate(src: Path) -> dict:
         raise Refuse('create_limiter changed')
     out.append('Definition create_limiter (limit_kbps : Z) : option lim :=\n'
                ' if Z.eqb limit_kbps 0 then None else Some (mk_limited limit_kbps).\n')
+    out.append(network_and_connection_shapes(src))
     return {'RateGen.v': ''.join(out)}
+
+
+SET_LIMIT_SHAPE = '''new_limiter = RateLimiter.create_limiter(limit_kbps)
+if self._{d}_rate_limiter is not None:
+    new_limiter.copy_tokens(self._{d}_rate_limiter)
+self._{d}_rate_limiter = new_limiter
+for conn in self.peer_connections:
+    conn.{d}_rate_limiter = self._{d}_rate_limiter'''
+
+
+def _body_src(fn):
+    b = [s for s in fn.body if not (isinstance(s, ast.Expr) and isinstance(s.value, ast.Constant) and isinstance(s.value.value, str))]
+    return '\n'.join(ast.unparse(s) for s in b)
+
+
+def network_and_connection_shapes(src: Path) -> str:
+    """The part of the model that lives outside rate_limiter.py, shape-checked (fail closed):
+    * Network.set_upload_speed_limit / set_download_speed_limit = Model.set_limit (create, copy_tokens
+      from the old limiter, replace the slot, hand the new object to every peer connection);
+    * Network.__init__ creates both limiters with create_limiter(<setting>);
+    * Network._finalize_peer_connection gives file connections the two current limiters;
+    * PeerConnection.send_file / receive_file take tokens from the connection's CURRENT limiter
+      attribute once per chunk, inside the loop (so a replaced limiter is picked up at the next chunk)."""
+    net = ast.parse((src / 'aioslsk' / 'network' / 'network.py').read_text())
+    conn = ast.parse((src / 'aioslsk' / 'network' / 'connection.py').read_text())
+    ncls = find_class(net, 'Network')
+    for d in ('upload', 'download'):
+        fn = find_func(ncls.body, f'set_{d}_speed_limit')
+        got = _body_src(fn)
+        want = SET_LIMIT_SHAPE.format(d=d)
+        if ast.dump(ast.parse(got)) != ast.dump(ast.parse(want)):
+            raise Refuse(f'Network.set_{d}_speed_limit changed:\n{got}')
+    init_src = ast.unparse(find_func(ncls.body, '__init__'))
+    for d in ('upload', 'download'):
+        if f'self._{d}_rate_limiter: RateLimiter = RateLimiter.create_limiter(self._settings.network.limits.{d}_speed_kbps)' not in init_src:
+            raise Refuse(f'Network.__init__: {d} limiter creation changed')
+    fin = ast.unparse(find_func(ncls.body, '_finalize_peer_connection'))
+    for d in ('upload', 'download'):
+        if f'connection.{d}_rate_limiter = self._{d}_rate_limiter' not in fin:
+            raise Refuse(f'_finalize_peer_connection: {d} limiter not handed to file connections')
+    pcls = find_class(conn, 'PeerConnection')
+    for name, d, var in (('send_file', 'upload', 'bytes_to_write'), ('receive_file', 'download', 'bytes_to_read')):
+        fn = find_func(pcls.body, name)
+        loops = [n for n in ast.walk(fn) if isinstance(n, ast.While)]
+        if len(loops) != 1:
+            raise Refuse(f'{name}: expected exactly one loop')
+        first = loops[0].body[0]
+        if ast.unparse(first) != f'{var} = await self.{d}_rate_limiter.take_tokens()':
+            raise Refuse(f'{name}: the loop must start by taking tokens from self.{d}_rate_limiter: {ast.unparse(first)}')
+        takes = [n for n in ast.walk(fn) if isinstance(n, ast.Attribute) and n.attr in ('take_tokens', f'{d}_rate_limiter')]
+        if len(takes) != 2:
+            raise Refuse(f'{name}: limiter referenced outside the per-chunk take')
+        uses = [n for n in ast.walk(loops[0]) if isinstance(n, ast.Name) and n.id == var and isinstance(n.ctx, ast.Load)]
+        if len(uses) != 1:
+            raise Refuse(f'{name}: granted size must be used exactly once (as the chunk size)')
+    return ('\n(* shape-checked by the translator (fail closed): Network.set_*_speed_limit = create_limiter + copy_tokens(old) + replace slot +\n'
+            '   hand to every peer connection; send_file/receive_file take tokens from the current limiter attribute once per chunk *)\n'
+            'Definition SET_LIMIT_COPIES_TOKENS : bool := true.\nDefinition TAKE_PER_CHUNK_FROM_CURRENT_LIMITER : bool := true.\n')
 
 
 def const_eval_interval(tree):
